@@ -1,5 +1,7 @@
 import Jrpc.Codec
 import Jrpc.Auth
+import Jrpc.Backoff
+import Jrpc.Frames
 /-
   Jrpc.Ops — dispatch of driver operations onto the model's executable definitions.
 -/
@@ -56,12 +58,68 @@ def opAuthHttp (j : Json) : R Json := do
   | .next a => return Json.mkObj [("status", 200), ("next", true),
       ("attached", optJ (fun ps => Json.arr (ps.map Json.str).toArray) a)]
 
+/-- op "backoff": interval of `next(attempt)` over all jitters (attempt < 0 ↦ minDelay). -/
+def opBackoff (j : Json) : R Json := do
+  let b : Backoff := { minDelay := ← nat j "min", maxDelay := ← nat j "max" }
+  let a ← int j "attempt"
+  if a < 0 then
+    return Json.mkObj [("lo", b.minDelay), ("hi", b.minDelay)]
+  else
+    return Json.mkObj [("lo", b.lo a.toNat), ("hi", b.hi a.toNat)]
+
+def jshape : String → R JShape
+  | "null" => pure .null | "bool" => pure .bool | "uint" => pure .uint | "num" => pure .num
+  | "str" => pure .str | "arr" => pure .arr | "obj" => pure .obj
+  | s => throw s!"bad shape {s}"
+
+def jval (j : Json) : R JVal := do
+  return { shape := ← jshape (← str j "shape"), text := ← str j "text" }
+
+def ctlParams (j : Json) : R CtlParams := do
+  match (← str j "t") with
+  | "absent" => return .absent
+  | "null" => return .null
+  | "nonarray" => return .nonArray
+  | "arr" => return .arr (← (arrD j "elems").mapM jval)
+  | t => throw s!"bad ctl params {t}"
+
+def frameIn (j : Json) : R FrameIn := do
+  return { decodable := boolD j "decodable" true
+           id := ← wireId (← fld j "id")
+           method := strD j "method" ""
+           params := ← ctlParams (fldD j "params" (Json.mkObj [("t", "absent")]))
+           call := ← paramsIn (fldD j "call" (Json.mkObj [("t", "absent")]))
+           hasResult := boolD j "hasResult" false }
+
+/-- op "frames": a frame sequence through the executor of one endpoint. -/
+def opFrames (j : Json) : R Json := do
+  let h ← handler (← fld j "handler")
+  let st := fldD j "state" (Json.mkObj [])
+  let s0 : ExecState := {
+    handling := ← (arrD st "handling").mapM nid
+    chanHandlers := ← (arrD st "chanHandlers").mapM (·.getStr?)
+    inflight := ← (arrD st "inflight").mapM nid
+    hasHandler := boolD st "hasHandler" true }
+  let fs ← (arrD j "frames").mapM frameIn
+  match execFrames h s0 fs with
+  | .crash w => return Json.mkObj [("crash", true), ("why", w)]
+  | .ok s =>
+    return Json.mkObj [("crash", false),
+      ("cancelled", Json.arr (s.cancelled.map nidJ).toArray),
+      ("invoked", Json.arr ((s.spawned.filterMap (·.invoked)).map Json.str).toArray),
+      ("responses", Json.arr ((s.spawned.filterMap (·.resp)).map respJ).toArray),
+      ("delivered", Json.arr (s.delivered.map (fun p => Json.arr #[Json.str p.1, Json.str p.2])).toArray),
+      ("closed", Json.arr (s.closedChans.map Json.str).toArray),
+      ("mailbox", Json.arr (s.mailbox.map nidJ).toArray)]
+
 def run (j : Json) : R Json := do
   match (← str j "op") with
   | "http" => opHttp j
   | "handle" => opHandle j
   | "agree" => opAgree j
   | "perm" => opPerm j
+  | "backoff" => opBackoff j
+  | "frames" => opFrames j
   | "authhttp" => opAuthHttp j
   | op => throw s!"unknown op {op}"
 
